@@ -57,11 +57,14 @@ vars == <<scopes, decls, refs, phase, plan, an, res, nm>>
 ReservedWords == {"do", "if", "in"}   \* the keywords that occur in the minifier sequences
 \* the whole alphabet (the order is only used to canonicalise references); it
 \* contains the renamers' own products: minified names, numbered names, _a
-Alpha == <<"a", "b", "e", "t", "$", "x", "x2", "x3", "x22", "_a", "arguments", "eval", "y", "n", "r">>
+Alpha == <<"a", "b", "e", "t", "$", "_", "x", "x2", "x3", "x22", "_a", "arguments", "eval", "y", "n", "r">>
 NameIdx(n) == CHOOSE i \in 1..Len(Alpha) : Alpha[i] = n
 \* abstract minifier sequences (cfg: MinSeq <- MinSeqA)
 MinSeqA == <<"a", "e", "in", "x", "b", "t", "$", "c", "d", "f", "g", "h", "i", "j", "k", "l", "m", "o", "p", "q">>
 MinSeqB == <<"e", "t", "a", "do", "$", "b", "x", "c", "d", "f", "g", "h", "i", "j", "k", "l", "m", "o", "p", "q">>
+\* "_" first: the real minifier orders by character frequency and "_" is the most frequent
+\* character of the marker programs (__L, __T)
+MinSeqC == <<"_", "e", "a", "in", "t", "$", "b", "x", "c", "d", "f", "g", "h", "i", "j", "k", "l", "m", "o", "p", "q">>
 ASSUME Names \subseteq {Alpha[i] : i \in 1..Len(Alpha)} /\ DeclNames \subseteq Names
 
 NS == Len(scopes)
